@@ -39,7 +39,9 @@ CHECKS = {
                      "latching, re-registration) interleaved with RTP and RTCP packets of every type delivered by a delaying/reordering/"
                      "duplicating network: each route_rtp()/route_rtcp() result equals the reference router's; nothing is ever routed to an "
                      "unregistered party. An SSRC registered by two receivers at once is judged leniently (the statement does not order "
-                     "them); a registration decides over an SSRC that had merely stuck to another receiver."),
+                     "them); a registration decides over an SSRC that had merely stuck to another receiver. In transport mode (30 % of runs) "
+                     "serialised RTP and compound RTCP datagrams go through RTCDtlsTransport's own handlers one at a time, the handling of a "
+                     "NACK suspends, registrations change meanwhile, and no party may be handed a packet while it is not registered."),
     "C15": dict(engine="history_sim", design="10/C15", technique="deterministic simulation: traffic segments through a bottleneck-queue network model and a sender clock with arbitrary origin into the real RemoteBitrateEstimator; sliding-window reference and bound oracles per arrival",
                 text="Seeded exploration of arrival histories (10-3000 pps, sizes 0-1500, idle gaps around and beyond the 1 s window, bursts, "
                      "bottleneck squeezes that ramp delay, 24-bit abs-send-time wrap, several SSRCs, loss/duplication/reordering): add() never "
